@@ -455,6 +455,13 @@ from vf import core; core.import_guard()
 from vf.checks import c08
 out = {}
 confs = list(c08.configurations())
+if spec.get("prebuild"):
+    # an earlier, unrelated build in the same process (history of the process)
+    c08.run_build(confs[spec["confs"][-1]], controlled=False)
+if spec.get("indent"):
+    # "it is a valid use case to override the constant" (text_gen.fetch_default_indent_nr_spaces)
+    from dznpy import text_gen
+    text_gen.DEFAULT_INDENT_NR_SPACES = spec["indent"]
 for idx in spec["confs"]:
     conf = confs[idx]
     files = c08.run_build(conf, controlled=False)
@@ -476,6 +483,12 @@ ENV_ANSWERS = [
     ('env:SOURCE_DATE_EPOCH', {'env': {'SOURCE_DATE_EPOCH': '0'}}), ('env:COLUMNS', {'env': {'COLUMNS': '20', 'LINES': '5'}}),
     ('env:TMPDIR', {'env': {'TMPDIR': '/nonexistent', 'TEMP': '/nonexistent'}}), ('env:PYTHONOPTIMIZE', {'env': {'PYTHONOPTIMIZE': '2'}}),
     ('env:DZN', {'env': {'DZN': '/x', 'DZNPY': '1', 'DEBUG': '1', 'CI': 'true', 'NO_COLOR': '1'}}),
+    # the documented module-level override of the indentation width, and the history of the process: a build made
+    # after the override equals the build of a fresh process that starts with the override (ref = the answer compared to)
+    ('indent:2', {'indent': 2, 'base': True}), ('indent:8', {'indent': 8, 'base': True}),
+    ('history:earlier-build', {'prebuild': True}),
+    ('history:earlier-build-then-indent:2', {'prebuild': True, 'indent': 2, 'ref': 'indent:2'}),
+    ('history:earlier-build-then-indent:8', {'prebuild': True, 'indent': 8, 'ref': 'indent:8'}),
     # clock, file mode mask, program name
     ('clock:epoch', {'clock': 1.0}), ('clock:2038', {'clock': 2147483647.0}), ('clock:leap-day', {'clock': 1709210096.0}),
     ('umask:000', {'umask': 0}), ('umask:777', {'umask': 0o777}), ('argv0', {'argv0': '/usr/bin/dzn-shellgen.py'}),
@@ -542,7 +555,8 @@ def work_env(job):
 def judge_env(case):
     answer = [a for a in ENV_ANSWERS if a[0] == case['answer']][0]
     idxs = env_conf_indices(len(list(configurations())))
-    _n, ref, err0 = env_child(ENV_ANSWERS[0], idxs)
+    refname = answer[1].get('ref', 'default')
+    _n, ref, err0 = env_child([a for a in ENV_ANSWERS if a[0] == refname][0], idxs)
     _n, got, err = env_child(answer, idxs)
     if ref is None:
         raise HarnessError(f'default environment child failed: {err0}')
@@ -688,7 +702,10 @@ def explore(ctx):
     # every single deviation from the default environment answer
     idxs = env_conf_indices(len(confs))
     nenv = 0
-    for name, got, err in pmap(work_env, [(a, idxs) for a in ENV_ANSWERS]):
+    env_results = list(pmap(work_env, [(a, idxs) for a in ENV_ANSWERS]))
+    by_name = {name: got for name, got, _e in env_results}
+    spec_of = dict(ENV_ANSWERS)
+    for name, got, err in env_results:
         nenv += 1
         if got is None:
             if name == 'default':
@@ -696,9 +713,17 @@ def explore(ctx):
             ctx.violation(f'environment-breaks-build:{name}', f'environment answer {name}: the build fails: {err}',
                           {'child': True, 'answer': name})
             continue
+        if spec_of[name].get('base'):
+            if all(files == [[n, h] for n, h in expected[key]] for key, files in got.items()):
+                raise HarnessError(f'vacuous: the override {name} does not change any output')
+            continue
         for key, files in got.items():
             nchild += 1
             want = [[n, h] for n, h in expected[key]]
+            if spec_of[name].get('ref'):
+                if by_name[spec_of[name]['ref']] is None:
+                    break
+                want = by_name[spec_of[name]['ref']][key]
             if files != want:
                 diff = [f'{b[0]} (expected {a[0]})' if a[0] != b[0] else a[0] for a, b in zip(want, files) if a != b]
                 ctx.violation(f'environment-changes-output:{name}',
